@@ -16,6 +16,7 @@ type c20X struct {
 	Yield     bool
 	Perm      bool
 	EarlyStop bool // a Close/Shutdown may run before Serve has registered its listener
+	LoopYield bool // the command loop parks at some of its yield points
 }
 
 var c20Patterns = []string{"bdat-rset-bdat", "lmtp-data-statuses", "bdat-quit", "bdat-disconnect", "data-twice", "bdat-stale-next-txn", "idle"}
@@ -118,6 +119,20 @@ func genC20(t *Tape, tier string) *Scenario {
 		for i := 1; i < len(sc.Admin); i++ {
 			if t.Bool() {
 				sc.Admin[i].At = sc.Admin[0].At
+			}
+		}
+	}
+	if x.NAdmin >= 1 && t.Chance(1, 3) {
+		// the command loop parks at a drawn subset of its yield points, so that Server.Close
+		// can land between two steps that no blocking operation separates
+		if sc.YieldPark == 0 {
+			sc.YieldPark = Dur(1+t.Intn(6)) * 100 * time.Microsecond
+		}
+		sc.YieldPoints = []string{"server.close", "server.shutdown"}
+		for _, p := range []string{"conn.reset", "conn.bdat.open", "conn.bdat.last", "conn.loop"} {
+			if t.Bool() {
+				sc.YieldPoints = append(sc.YieldPoints, p)
+				x.LoopYield = true
 			}
 		}
 	}
@@ -316,6 +331,9 @@ func classifyC20(sc *Scenario, h *History, st *Stats) string {
 	}
 	if x.Yield {
 		st.Probes["close_shutdown_overlap_via_yield_hook"]++
+	}
+	if x.LoopYield {
+		st.Probes["command_loop_parks_at_yield_points"]++
 	}
 	if x.EarlyStop && h.ServeErr == "smtp: server already closed" {
 		st.Probes["serve_started_after_close"]++
